@@ -396,7 +396,11 @@ RefNonNeg == \A r \in RunnerId : run[r].ref >= 0
 LockCycleXC == xpc = "body" /\ loadedMu = "X" /\ cpc = "unload" /\ refMu[xrun] = "C"
 LockCyclePC == ppc = "updfree" /\ loadedMu = "PU" /\ cpc = "unload" /\ \E m \in Model : loaded[m] # NoR /\ refMu[loaded[m]] = "C"
 NoLockCycle == ~LockCycleXC /\ ~LockCyclePC
-Emit == (Len(hist) = MaxHist /\ MaxHist > 0) => PrintT(ToJson(hist))
+\* behaviours are handed to the replay driver when they are full or when everything has come to rest
+Quiet == /\ \A q \in Req : rq[q].st # "new" /\ rq[q].ctx = "done" /\ rq[q].fin # "armed"
+         /\ pendingQ = <<>> /\ finishedQ = <<>> /\ expiredQ = <<>> /\ requeue = {}
+         /\ ppc = "idle" /\ cpc = "idle" /\ xpc = "idle"
+Emit == (MaxHist > 0 /\ (Len(hist) = MaxHist \/ (Quiet /\ Len(hist) > 12))) => PrintT(ToJson(hist))
 \* as-pinned model: print the behaviours that reach a bad state (the witnesses of the findings)
 Bad == viol # {} \/ ~(\A r \in {x \in RunnerId : Live(x)} : loaded[run[r].model] = r)
        \/ (xpc = "body" /\ loadedMu = "X" /\ cpc = "unload" /\ refMu[xrun] = "C")
